@@ -18,6 +18,7 @@ PROP = "C38"
 READY = True
 DRIVER = "dm_dfpart"
 LEAN_MODULES = ["DaskModel.Props.C38"]
+TABLES = ["GroupbyAggs"]
 CASE_TIMEOUT_S = 90
 ASSUMPTIONS = ["pandas groupby kernels on one partition (chunk) and on the concatenated partials (combine/aggregate) are the "
                "oracle-checked atoms; the model fixes only their algebra (what is folded, in which order)",
